@@ -163,6 +163,9 @@ def run(ctx):
                 if y.get("k") == "ref" and y.get("storage") in ("static_local", "namespace", "static_member") and not y["decl"].split(":", 1)[1].startswith("std::"):
                     n += 1
                     ctx.bad("R20.4", f, "shared-storage:" + y["decl"], "%s uses static-storage object %s" % (short(f.qual), y["decl"]), (f, e.get("ln")))
+    from .common import fx, static_locals
+    g = fx(ctx, "shared_buffer")
+    ctx.fixture("R20.4", "shared_buffer", g is not None and bool(static_locals(g)), True, "static/thread_local storage recognised")
     if not n:
         ctx.ok("R20.4", "nitro::lang", "no-shared-storage", "%d functions scanned" % len(pats), "-")
     ctx.assume("iteration over user-defined iterators with exotic operator!= is outside the claim")
